@@ -15,10 +15,10 @@ fn check(name: &str, obs: &Value, exp: &Value) -> Vec<&'static str> {
         if obs["len"] != exp["len"] { why.push("len") }
     } else if name == "xdec" {
         // the reader consumes exactly what the writer wrote (its length is the writer's business: C08)
-        if exp["ok"] == true { if !(obs["ok"] == true && obs["val"] == exp["val"] && obs["pos"].as_u64() == obs["written"].as_array().map(|a| a.len() as u64)) { why.push("dec") } }
+        if exp["ok"] == true { if !(obs["ok"] == true && obs["val"] == exp["val"] && obs["bor"] == true && obs["pos"].as_u64() == obs["written"].as_array().map(|a| a.len() as u64)) { why.push("dec") } }
         else if obs["ok"] == true { why.push("dec") }
     } else if exp["ok"] == true {
-        if !(obs["ok"] == true && obs["val"] == exp["val"] && obs["pos"] == exp["pos"]) { why.push("dec") }
+        if !(obs["ok"] == true && obs["val"] == exp["val"] && obs["pos"] == exp["pos"] && obs["bor"] == true) { why.push("dec") }
     } else if obs["ok"] == true { why.push("dec") }
     why
 }
@@ -73,7 +73,8 @@ fn main() {
                 let ev = std::panic::catch_unwind(|| {
                     let enc = gen_types::run(wsid, "enc", &json!({"val": c["in"]["val"]}));
                     let dec = if enc["ok"] == true { gen_types::run(sid, "dec", &json!({"bytes": enc["bytes"]})) } else { json!({"p":"run","ok":false,"cls":"encode","pos":0}) };
-                    let dec = json!({"ok": dec["ok"] == true, "val": if dec["ok"] == true { dec["val"].clone() } else { json!([]) }, "pos": dec["pos"], "cls": dec.get("cls").cloned().unwrap_or(json!(""))});
+                    let dec = json!({"ok": dec["ok"] == true, "val": if dec["ok"] == true { dec["val"].clone() } else { json!([]) }, "pos": dec["pos"], "cls": dec.get("cls").cloned().unwrap_or(json!("")),
+                                     "bor": dec.get("bor").cloned().unwrap_or(json!(true))});
                     let mut ev = json!({"fam": "derive", "name": c["name"], "sid": sid, "schema": c["in"]["schema"], "val": c["in"]["val"],
                                         "enc_ok": enc["ok"] == true, "bytes": enc["bytes"], "len": enc["len"], "dec": dec});
                     if c["in"].get("wschema").is_some() { ev["wschema"] = c["in"]["wschema"].clone(); ev["wsid"] = json!(wsid) }
